@@ -27,9 +27,9 @@ META = dict(
 
 def tier_params(tier):
     if tier == "quick":
-        return dict(models=[("orders", 1, 2, 2, 1, 3), ("pools", 1, 0, 0, 1, 3), ("orders", 2, 2, 2, 1, 3)], mc_timeout=420,
+        return dict(models=[("orders", 1, 2, 4, 1, 3), ("pools", 1, 0, 0, 1, 3), ("orders", 2, 2, 4, 1, 3)], mc_timeout=420,
                     budget=1000, depth=7, runs=24, steps=120, trace_timeout=900)
-    return dict(models=[("orders", 1, 3, -4, 1, 4), ("orders", 1, 2, 2, 1, 4), ("pools", 1, 0, 0, 1, 4), ("orders", 2, 3, -4, 1, 3), ("orders", 2, 2, 2, 1, 4)], mc_timeout=1500,
+    return dict(models=[("orders", 1, 3, 0, 1, 4), ("orders", 1, 2, 4, 1, 4), ("pools", 1, 0, 0, 1, 4), ("orders", 2, 3, 0, 1, 3), ("orders", 2, 2, 4, 1, 4)], mc_timeout=1500,
                 budget=5000, depth=8, runs=120, steps=220, trace_timeout=3000)
 
 
@@ -46,17 +46,17 @@ def pipeline(c):
         for scope, app, maxoid, slack, maxreq, maxh in P["models"]:
             cfg = "MC_Liquidity_%s_%d_%d_%d.cfg" % (scope, app, maxoid, maxh)
             with open(os.path.join(wd, cfg), "w") as f:
-                f.write("SPECIFICATION Spec\nCONSTANTS MApp = %d  MUsers = {\"u1\", \"u2\"}  Scope = \"%s\"  MaxOid = %d  MMSlack = %d  MaxReq = %d  MaxH = %d  Swapped = FALSE  Emit = %s\n"
+                f.write("SPECIFICATION Spec\nCONSTANTS MApp = %d  MUsers = {\"u1\", \"u2\"}  Scope = \"%s\"  MaxOid = %d  MMMax = %d  MaxReq = %d  MaxH = %d  Swapped = FALSE  Emit = %s\n"
                         "CONSTANTS Accts <- MCAccts  Denoms <- MCDenoms\nINVARIANTS InvC04 InvC07 InvCancellable\nCHECK_DEADLOCK FALSE\n"
                         % (app, scope, maxoid, slack, maxreq, maxh, "FALSE" if (scope, app) in emitted else "TRUE"))
             emitted.add((scope, app))
             r = vlib.model_check(wd, "MC_Liquidity", cfg, workers=4, tfile=tfile, timeout=P["mc_timeout"])
-            models.append(dict(cfg="scope=%s app=%d MaxOid=%d MMSlack=%d MaxReq=%d MaxH=%d" % (scope, app, maxoid, slack, maxreq, maxh),
+            models.append(dict(cfg="scope=%s app=%d MaxOid=%d MMMax=%d MaxReq=%d MaxH=%d" % (scope, app, maxoid, slack, maxreq, maxh),
                                generated=r["generated"], distinct=r["distinct"], depth=r.get("depth"), wall=round(r["wall"], 1)))
         # sanity of the model-level formulas: with the code's exchanged lookup (Swapped = TRUE) and app id != pair id the
         # MM-replace step property must FAIL on the model (the counterexample is the confirmed defect, reproduced on real code by the drivers)
         with open(os.path.join(wd, "MC_Liquidity_swapped.cfg"), "w") as f:
-            f.write("SPECIFICATION Spec\nCONSTANTS MApp = 2  MUsers = {\"u1\", \"u2\"}  Scope = \"orders\"  MaxOid = 2  MMSlack = 2  MaxReq = 1  MaxH = 3  Swapped = TRUE  Emit = FALSE\n"
+            f.write("SPECIFICATION Spec\nCONSTANTS MApp = 2  MUsers = {\"u1\", \"u2\"}  Scope = \"orders\"  MaxOid = 2  MMMax = 4  MaxReq = 1  MaxH = 3  Swapped = TRUE  Emit = FALSE\n"
                     "CONSTANTS Accts <- MCAccts  Denoms <- MCDenoms\nINVARIANTS InvC04 InvC07 InvCancellable\nCHECK_DEADLOCK FALSE\n")
         rs = vlib.run_tlc(wd, "MC_Liquidity", "MC_Liquidity_swapped.cfg", workers=4, timeout=600)
         bites = "step property violated by the model" in rs["out"] and ("CancelMM" in rs["out"] or "MMOrder" in rs["out"])
